@@ -7,34 +7,162 @@
    E-constraints under every member distribution (exact rational membership), one rule per event.
 4. Float oracle outside TLC: primal moment LP (worst-case expectation at the returned solution) and a
    cutting-plane loop for the true optimum under the declared adaptation.
+5. Lifted supports with auxiliary random variables (mean absolute deviation, Wasserstein-style 1/inf/2-norm), expectation
+   sets on the auxiliary variable, decisions adapting to it, KL / 2-norm probability sets: TLC members carry two atoms
+   per scenario; the oracle works on the vertices + extreme rays of the lifted polyhedra (harness/liftpoly.py, verified
+   in every run) and sandwiches the non-polyhedral sets (inner description for C03, outer for C04).
+6. Conic expectation sets || E z - mu || <= r (1-, inf-, 2-norm; members exact in TLC, 2-norm disc sandwiched between polygons
+   in the moment LP), rows with their OWN support through constraint.forall(second ambiguity set | list of support
+   constraints) (TLC checks the rows on that support, the oracle puts the row cuts there), and the piecewise objective
+   WITHOUT expectation minsup(maxof(..)) (form C: worst case over all supports; exact grid optimum from TLC).
 """
 import json
 import random
 
-from harness import tlc, core
+from harness import tlc, core, liftpoly
 from harness.tlc import tla
 
 XB = 3
+# the kinds added for lifted / non-polyhedral sets, conic expectation sets, rows with their own support (forall), piecewise objective without E
+NEW = dict(supp=(9, 10, 11, 12), prob=(6, 7, 8, 9), expt=(7, 8, 9, 10, 11, 12, 13, 14, 15), aff=('au', 'a12u'), rsupp=(1, 2, 3, 4, 8), form=('C',))
 
 
 def configs(tier, rng):
     cfgs = []
-    base = dict(NSs={1, 2, 3}, IntChoices={True, False}, EConChoices={0, 11, 12})
+    base = dict(NSs={1, 2, 3}, IntChoices={True, False}, EConChoices={0, 11, 12}, RowSupps={0})
     if tier == 'quick':
         cfgs.append(dict(base, SuppKinds={1, 7, 4}, ProbKinds={1, 2, 4}, ExptKinds={0}, Forms={'B'}, PieceSets={rng.choice([1, 2, 3, 4, 5]), 6}, Parts={0}, Affs={'a0'}, EConChoices={0, 11}))
         cfgs.append(dict(base, SuppKinds={3, 5, 6}, ProbKinds={3, 5}, ExptKinds={1, 2, 3, 4, 5, 6}, Forms={'B'}, PieceSets={rng.choice([1, 2, 3, 4, 5]), 7}, Parts={0}, Affs={'a0'}, EConChoices={0, 12}, IntChoices={False}))
         cfgs.append(dict(base, SuppKinds={8, 7, 4}, ProbKinds={1, 2, 5}, ExptKinds={0, 1, 3}, Forms={'A'}, PieceSets={1, rng.choice([2, 3, 4])}, Parts={0, 1, 2}, Affs={'a0', 'a1', 'a12'}, EConChoices={0}, IntChoices={False}))
         cfgs.append(dict(base, SuppKinds={1, 5, 6}, ProbKinds={1, 3, 4}, ExptKinds={0, 2, 4, 5}, Forms={'A'}, PieceSets={rng.choice([1, 5]), 3}, Parts={0, 1, 2}, Affs={'a0', 'a12'}, EConChoices={0, 11}, IntChoices={False}))
+        # lifted supports (LP-representable), expectation information on the auxiliary variable, rules adapting to it
+        cfgs.append(dict(base, NSs={2, 3}, SuppKinds={9, 10, 11}, ProbKinds={1, rng.choice([2, 3, 4, 5])}, ExptKinds={7, 8, 9, 10, 11}, Forms={'A', 'B'},
+                         PieceSets={rng.choice([1, 2]), rng.choice([3, 4, 5])}, Parts={0, 1}, Affs={'a0', 'a12', 'au', 'a12u'}, EConChoices={0, rng.choice([11, 12])},
+                         cap=150, tag='lifted'))
+        # cone programs: 2-norm Wasserstein supports, KL / 2-norm probability sets (sandwiched by the oracle)
+        cfgs.append(dict(base, NSs={2, 3}, SuppKinds={12, rng.choice([2, 8]), rng.choice([9, 10, 11])}, ProbKinds={1, 6, 7, 8, 9}, ExptKinds={0, rng.choice([7, 8]), rng.choice([9, 10, 11])},
+                         Forms={'A', 'B'}, PieceSets={rng.choice([1, 2, 3]), rng.choice([4, 5, 6])}, Parts={0, rng.choice([1, 2])}, Affs={'a0', 'a12', rng.choice(['au', 'a12u'])},
+                         EConChoices={0, 11}, IntChoices={False}, cap=150, tag='conic'))
+        # rows with their own support (forall: second ambiguity set / list of constraints), conic expectation sets
+        cfgs.append(dict(base, NSs={2, 3}, SuppKinds={rng.choice([2, 8]), 3, 4}, ProbKinds={1, rng.choice([2, 4, 5, 7])}, ExptKinds={0, rng.choice([12, 13]), rng.choice([14, 15])}, Forms={'A'},
+                         PieceSets={rng.choice([1, 2, 3]), rng.choice([4, 5, 6, 7])}, Parts={0, 1}, Affs={'a0', 'a12'}, EConChoices={0}, IntChoices={False},
+                         RowSupps={0, 1, 2, 3, 4, 8}, cap=120, tag='rows'))
+        # piecewise objective without expectation (form C) next to E(maxof) under conic expectation sets
+        cfgs.append(dict(base, NSs={2, 3}, SuppKinds={1, 3, 4, rng.choice([2, 5, 6, 8]), rng.choice([9, 10, 11])}, ProbKinds={1, rng.choice([2, 3, 4, 5]), rng.choice([6, 8])}, ExptKinds={0, 12, 13, 14, 15},
+                         Forms={'B', 'C'}, PieceSets={rng.choice([1, 2, 3, 4]), rng.choice([5, 6, 7])}, Parts={0}, Affs={'a0'}, EConChoices={0, rng.choice([11, 12])},
+                         cap=120, tag='formC'))
     else:
         allk = dict(SuppKinds={1, 2, 3, 4, 5, 6, 7, 8}, ProbKinds={1, 2, 3, 4, 5}, PieceSets={1, 2, 3, 4, 5, 6, 7})
         cfgs.append(dict(base, **allk, ExptKinds={0}, Forms={'B'}, Parts={0}, Affs={'a0'}))
         cfgs.append(dict(base, **allk, ExptKinds={1, 2, 3, 4, 5, 6}, Forms={'B'}, Parts={0}, Affs={'a0'}, IntChoices={False}))
         cfgs.append(dict(base, **allk, ExptKinds={0, 1, 2, 3, 4, 5, 6}, Forms={'A'}, Parts={0, 1, 2}, Affs={'a0', 'a1', 'a12'}, IntChoices={False}, EConChoices={0, 11}))
+        # new kinds x forms x partitions (split by form / scenario count: TLC builds the program set in one thread)
+        allp = {1, 2, 3, 4, 5, 6, 7}
+        for ns in (2, 3):
+            cfgs.append(dict(base, NSs={ns}, SuppKinds={9, 10, 11}, ProbKinds={1, 2, 3, 4, 5}, ExptKinds={0, 2, 5, 7, 8, 9, 10, 11}, Forms={'A'}, PieceSets=allp, Parts={0, 1, 2},
+                             Affs={'a0', 'a1', 'a12', 'au', 'a12u'}, EConChoices={0, 11}, IntChoices={False}, cap=900, tag='lifted'))
+            cfgs.append(dict(base, NSs={ns}, SuppKinds={2, 5, 9, 10, 11, 12}, ProbKinds={1, 6, 7, 8, 9}, ExptKinds={0, 1, 4, 7, 8, 9, 10, 11}, Forms={'A'}, PieceSets=allp, Parts={0, 1, 2},
+                             Affs={'a0', 'a1', 'a12', 'au', 'a12u'}, EConChoices={0, 11}, IntChoices={False}, cap=900, tag='conic'))
+        cfgs.append(dict(base, NSs={2, 3}, SuppKinds={9, 10, 11}, ProbKinds={1, 2, 3, 4, 5}, ExptKinds={0, 2, 5, 7, 8, 9, 10, 11}, Forms={'B'}, PieceSets=allp, Parts={0}, Affs={'a0'},
+                         cap=900, tag='lifted'))
+        cfgs.append(dict(base, NSs={2, 3}, SuppKinds={2, 5, 9, 10, 11, 12}, ProbKinds={1, 6, 7, 8, 9}, ExptKinds={0, 1, 4, 7, 8, 9, 10, 11}, Forms={'B'}, PieceSets=allp, Parts={0}, Affs={'a0'},
+                         IntChoices={False}, cap=900, tag='conic'))
+        for ns in (2, 3):
+            cfgs.append(dict(base, NSs={ns}, SuppKinds={2, 3, 4, 8}, ProbKinds={1, 2, 5, 7}, ExptKinds={0, 5, 12, 13, 14, 15}, Forms={'A'}, PieceSets={1, 3, 4, 6}, Parts={0, 1, 2},
+                             Affs={'a0', 'a1', 'a12'}, EConChoices={0, 11}, IntChoices={False}, RowSupps={0, 1, 2, 3, 4, 8}, cap=900, tag='rows'))
+        for form in ('B', 'C'):
+            cfgs.append(dict(base, NSs={2, 3}, SuppKinds={1, 2, 3, 4, 5, 6, 7, 8, 9, 10, 11, 12}, ProbKinds={1, 2, 4, 6, 7}, ExptKinds={0, 2, 5, 7, 12, 13, 14, 15}, Forms={form},
+                             PieceSets={1, 2, 4, 5, 6, 7}, Parts={0}, Affs={'a0'}, cap=900, tag='formC'))
     return cfgs
 
 
+def is_new(p):
+    return p['supp'] in NEW['supp'] or p['prob'] in NEW['prob'] or p['expt'] in (14, 15)
+
+
+def soc_program(p):
+    return p['supp'] == 12 or p['prob'] in (7, 9) or p['expt'] in (14, 15)
+
+
+def stratified(recs, cap, rng):
+    """A sample of `cap` programs in which every value of every program field that occurs in recs occurs (several times
+    where possible): first up to 4 programs per (field, value), then the head of the (already shuffled) list."""
+    chosen, seen = [], set()
+
+    def take(r):
+        k = json.dumps(r['prog'], sort_keys=True)
+        if k not in seen:
+            seen.add(k)
+            chosen.append(r)
+    for f in ('supp', 'prob', 'expt', 'aff', 'form', 'part', 'ns', 'rsupp'):
+        vals = sorted({r['prog'][f] for r in recs}, key=str)
+        for v in vals:
+            n = 0
+            for r in recs:
+                if r['prog'][f] == v:
+                    take(r)
+                    n += 1
+                    if n >= 4:
+                        break
+    for r in recs:
+        if len(chosen) >= cap:
+            break
+        take(r)
+    return chosen
+
+
+def check_catalogues(recs, rep):
+    """The three descriptions of the new sets must say the same thing: TLC atoms / probability points (DroSem.tla), the
+    oracle's half-spaces, vertices, rays and polygons (liftpoly), the defining formulas (liftpoly.true_member /
+    prob_member, which repeat what replay_drosem.build declares).  Any disagreement is a machinery error."""
+    import numpy as np
+    nrng = np.random.default_rng(rep.seed)
+    done, out = set(), []
+    try:
+        for rec in recs:
+            p = rec['prog']
+            if p['supp'] in liftpoly.LIFTED:
+                if rec['nu'] != liftpoly.nu_of(p['supp']):
+                    raise AssertionError('NU differs between DroSem.tla and liftpoly for kind %d' % p['supp'])
+                for s in range(p['ns']):
+                    key = ('supp', p['supp'], s)
+                    if key in done:
+                        continue
+                    done.add(key)
+                    out.append(liftpoly.selftest_lifted(p['supp'], s, rec['centres'], nrng))
+                    inner, outer = liftpoly.lifted(p['supp'], s, rec['centres'])
+                    for a in rec['verts'][s]:
+                        a = np.array(a, dtype=float)
+                        if len(a) != 2 + rec['nu'] or not liftpoly.true_member(p['supp'], s, rec['centres'], a):
+                            raise AssertionError('TLC atom %r of kind %d scenario %d is not in the declared support' % (a, p['supp'], s + 1))
+                        if np.any(outer['A'] @ a > outer['b'] + 1e-9):
+                            raise AssertionError('TLC atom %r of kind %d scenario %d is outside the oracle polyhedron' % (a, p['supp'], s + 1))
+            elif rec['nu'] != 0:
+                raise AssertionError('NU differs between DroSem.tla and liftpoly for kind %d' % p['supp'])
+            if p['prob'] in liftpoly.PROBSETS:
+                key = ('prob', p['prob'], p['ns'])
+                if key not in done:
+                    done.add(key)
+                    out.append(liftpoly.selftest_prob(p['prob'], p['ns'], nrng, pverts=[[w / 60.0 for w in v] for v in rec['pverts']]))
+    except AssertionError as e:
+        raise tlc.MachineryError('DroSem catalogue check failed: %s' % (e,))
+    rep.extra.setdefault('drosem', {})['catalogue_checks'] = len(out)
+    return out
+
+
+def float_tol(p, solver):
+    """Relative tolerance of the solver on this program class (a violation needs 10x)."""
+    if p['supp'] == 7 or p['prob'] in (6, 8) or solver == 'soc-grb':
+        return 5e-4                      # exponential cones (ECOS / SOC approximation)
+    if solver == 'eco':
+        return 5e-5
+    if soc_program(p):
+        return 1e-5                      # second-order cones (Gurobi)
+    return 5e-6
+
+
 def gen_constants(c):
-    d = {k: tla(v) for k, v in c.items()}
+    d = {k: tla(v) for k, v in c.items() if k not in ('cap', 'tag')}
     d.update(XB=tla(XB), Results='{}', SC='1')
     return d
 
@@ -53,7 +181,7 @@ def run(rep, tier, props):
         def one(c):
             model = tlc.make_model('DroSem', sc, constants=gen_constants(c), invariants=['Export'])
             return tlc.run_tlc(model, sc, workers=2, coverage=False, timeout=3000)
-        with ThreadPoolExecutor(max_workers=6) as ex:
+        with ThreadPoolExecutor(max_workers=8) as ex:
             allres = list(ex.map(one, cfgs))
         recs = []
         for ci, (c, res) in enumerate(zip(cfgs, allres)):
@@ -63,55 +191,104 @@ def run(rep, tier, props):
                 raise tlc.MachineryError('DroSem generator %d exported nothing' % ci)
             ex_ = sorted(res['exports'], key=lambda r: json.dumps(r['prog'], sort_keys=True))
             rng.shuffle(ex_)
-            recs.extend(ex_[:cap])
+            recs.extend(stratified(ex_, c['cap'], rng) if 'cap' in c else ex_[:cap])
+        geom = check_catalogues(recs, rep)
         jobs = []
         for k, rec in enumerate(recs):
             conic = rec['prog']['supp'] == 4 or rec['prog']['prob'] == 5   # 1-norm sets are LP-representable: any solver
             solver = ('def', 'ort', 'grb')[k % 3] if rec['prog']['xint'] else ('def', 'ort', 'eco', 'grb')[k % 4]
-            if rec['prog']['supp'] == 7:
-                solver = 'eco'        # exponential-cone support: the only capable interface
-            jobs.append(dict(tid=k, rec=rec, XB=XB, solver=solver, variant=k % 6))
+            if rec['prog']['supp'] == 7 or rec['prog']['prob'] in (6, 8):
+                solver = 'eco'        # exponential-cone support / KL divergence: the only capable interface
+            elif soc_program(rec['prog']):
+                solver = ('eco', 'grb')[k % 2]     # second-order cones
+            variant = k % 6
+            # a sub-event given as a LIST of labels only bites when the labels are not the positions: every other such program
+            # gets the 1-based integer labels (variant 3), where a label taken for a position names another scenario
+            if rec['prog']['ns'] == 3 and any(len(ex['ev']) == 2 for ex in rec['expts']) and k % 2 == 0:
+                variant = 3
+            jobs.append(dict(tid=k, rec=rec, XB=XB, solver=solver, variant=variant))
         results = core.pmap('harness.replay_drosem', 'replay', jobs, chunksize=4)
         bad = core.machinery_failures(results)
         if bad:
             raise tlc.MachineryError('replay_drosem failed: %s\n%s' % (bad[0]['machinery_error'], bad[0].get('tb', '')))
         scale, tolu = 10000, 8
         items, idx = [], []
+        too_big = set()
         for job, r in zip(jobs, results):
             if r['status'] == 'exception':
                 continue
             rec = job['rec']
             ns = rec['prog']['ns']
             if r['status'] == 'ok':
+                big = max([abs(r['obj']), abs(r['x'])] + [abs(v) for y in r['ys'] for v in y])
+                if big > 80:              # 4 * DEN * scale * value * coordinate must stay below 2^31 inside TLC
+                    too_big.add(job['tid'])
+                    continue
+                tu = tolu if rec['prog']['supp'] != 7 else 60
+                if is_new(rec['prog']):
+                    tu = max(tu, int(10 * float_tol(rec['prog'], r['solver']) * (1 + abs(r['obj'])) * scale) + 1)
                 it = dict(prog=rec['prog'], status='ok', x=scaled(r['x'], scale), obj=scaled(r['obj'], scale),
-                          ys=[[scaled(v, scale) for v in y] for y in r['ys']], tol=tolu if rec['prog']['supp'] != 7 else 60)
+                          ys=[[scaled(v, scale) for v in y] for y in r['ys']], tol=tu)
             else:
-                it = dict(prog=rec['prog'], status='fail', x=0, obj=0, ys=[[0, 0, 0]] * ns, tol=tolu)
+                it = dict(prog=rec['prog'], status='fail', x=0, obj=0, ys=[[0, 0, 0, 0, 0]] * ns, tol=tolu)
             it.update(exact=rec['exact'], gridFeasible=rec['gridFeasible'], gridOptDen=rec['gridOptDen'])
             items.append(it)
             idx.append(job['tid'])
         verdicts = {}
         if items:
-            consts = dict(NSs='{}', SuppKinds='{}', ProbKinds='{}', ExptKinds='{}', Forms='{}', PieceSets='{}', EConChoices='{}', Parts='{}',
-                          Affs='{}', IntChoices='{}', XB=tla(XB), SC=tla(scale),
-                          Results='{' + ', '.join(tla(dict(it, tid=k + 1)) for k, it in enumerate(items)) + '}')
-            model = tlc.make_model('DroSem', sc, constants=consts, invariants=['Validate'])
-            res = tlc.run_tlc(model, sc, workers=12, coverage=False, timeout=3000)
-            tlc.require_ok(res, 'DroSem validator')
-            rep.add_tlc('DroSem.validate[scale=%d]' % scale, res)
-            if len(res['exports']) != len(items):
-                raise tlc.MachineryError('DroSem validator: %d verdicts for %d results (log %s)' % (len(res['exports']), len(items), res['log']))
+            # TLC evaluates the invariant on initial states in ONE thread: split the results over several TLC processes
+            # (dealt round-robin after sorting by the size of the member family, so that the chunks cost about the same)
+            def cost(k):
+                pr = items[k]['prog']
+                return (pr['supp'] in NEW['supp']) * (10 ** pr['ns']) + 1
+            order = sorted(range(len(items)), key=lambda k: (-cost(k), k))
+            nch = min(8, max(1, len(items) // 40))
+            chunks = [order[c::nch] for c in range(nch)]
+            models = []
+            for ch in chunks:
+                consts = dict(NSs='{}', SuppKinds='{}', ProbKinds='{}', ExptKinds='{}', Forms='{}', PieceSets='{}', EConChoices='{}', Parts='{}',
+                              Affs='{}', IntChoices='{}', RowSupps='{}', XB=tla(XB), SC=tla(scale),
+                              Results='{' + ', '.join(tla(dict(items[k], tid=k + 1)) for k in ch) + '}')
+                models.append(tlc.make_model('DroSem', sc, constants=consts, invariants=['Validate']))
+            with ThreadPoolExecutor(max_workers=nch) as ex:
+                vres = list(ex.map(lambda mdl: tlc.run_tlc(mdl, sc, workers=2, coverage=False, timeout=3000), models))
+            nver = 0
+            for ci, res in enumerate(vres):
+                tlc.require_ok(res, 'DroSem validator %d' % ci)
+                rep.add_tlc('DroSem.validate[scale=%d,chunk=%d/%d]' % (scale, ci + 1, nch), res)
+                nver += len(res['exports'])
+                for v in res['exports']:
+                    verdicts[idx[v['tid'] - 1]] = v
+            if nver != len(items) or len(verdicts) != len(items):
+                raise tlc.MachineryError('DroSem validator: %d verdicts for %d results (log %s)' % (nver, len(items), vres[0]['log']))
             rep.traces_validated += len(items)
-            for v in res['exports']:
-                verdicts[idx[v['tid'] - 1]] = v
-    stats = dict(ok=0, fail=0, exception=0, oracle_ok=0, oracle_other={}, formA=0, with_expt=0)
+    stats = dict(ok=0, fail=0, exception=0, oracle_ok=0, oracle_other={}, formA=0, with_expt=0, members_checked=0, not_validated_by_tlc_magnitude=len(too_big),
+                 lifted_programs=0, lifted_solved=0, kl_programs=0, kl_solved=0, norm2_programs=0, norm2_solved=0, two_atom_member_programs=0,
+                 soc_fallback=0, sandwich_programs=0)
+    solved_kinds = {f: {} for f in NEW}
     for job, r in zip(jobs, results):
         rec = job['rec']
         p = rec['prog']
         rep.count(key=('D', json.dumps(p, sort_keys=True), job['solver'], job['variant'] % 2))
+        okr = r['status'] == 'ok'
+        if p['supp'] in NEW['supp']:
+            stats['lifted_programs'] += 1; stats['lifted_solved'] += okr
+        if p['prob'] in (6, 8):
+            stats['kl_programs'] += 1; stats['kl_solved'] += okr
+        if p['prob'] in (7, 9):
+            stats['norm2_programs'] += 1; stats['norm2_solved'] += okr
+        stats['soc_fallback'] += r.get('solver') == 'soc-grb'
+        stats['sandwich_programs'] += bool(r.get('sandwich'))
+        if okr:
+            for f in NEW:
+                if p[f] in NEW[f]:
+                    d = solved_kinds[f].setdefault(p[f], {})
+                    d[p['form']] = d.get(p['form'], 0) + 1
         tag = 'supp%d:prob%d:expt%d:form%s:part%d:%s' % (p['supp'], p['prob'], p['expt'], p['form'], p['part'], p['aff'])
+        if p['rsupp']:
+            tag += ':rows%d' % p['rsupp']
         detail = dict(program=p, solver=job['solver'], variant=job['variant'], result=r, pieces=[rec['piece1'], rec['piece2']], econ=rec['econ'],
-                      verts=rec['verts'], pverts=rec['pverts'], expts=rec['expts'])
+                      verts=rec['verts'], pverts=rec['pverts'], expts=rec['expts'], row_support=rec['rverts'])
         stats['formA'] += p['form'] == 'A'
         stats['with_expt'] += p['expt'] != 0
         if r['status'] == 'exception':
@@ -119,8 +296,17 @@ def run(rep, tier, props):
             _emit(rep, dict(sig='C03:unexpected-exception:%s:%s:form%s' % (r['phase'], r['exc'].split(':')[0], p['form']), prop='C03', what=r['exc'], **detail), props)
             continue
         stats[r['status']] += 1
-        v = verdicts[job['tid']]
-        cls = 'expt%d:form%s' % (p['expt'], p['form'])
+        if job['tid'] in too_big:
+            rep.inconclusive += 1
+            v = dict(rows=True, obj=True, econ=True, nonanticip=True, tight=True, exact=True, status=True, nmem=0)
+        else:
+            v = verdicts[job['tid']]
+        stats['members_checked'] += v['nmem']
+        if okr and p['supp'] in NEW['supp'] and v['nmem'] > 0:
+            stats['two_atom_member_programs'] += 1
+        gave_up = (r['status'] == 'fail' and job['solver'] in ('eco', 'grb') and (is_new(p) or p['supp'] == 7)
+                   and not any(w in (r.get('solver_status') or '').lower() for w in ('infeasible', 'unbounded'))
+                   and (r.get('solver_status') or '') not in ('3', '4', '5'))          # Gurobi: 3 infeasible, 4 inf-or-unbd, 5 unbounded
         if not v['rows']:
             _emit(rep, dict(sig='C03:row-violated-at-support-vertex:' + tag, prop='C03', what='a constraint written without E is violated at a vertex of a scenario support (TLC PostRows)', **detail), props)
         if not v['obj']:
@@ -133,10 +319,10 @@ def run(rep, tier, props):
             _emit(rep, dict(sig='C04:worse-than-grid-decision:' + tag, prop='C04', what='reported optimum is worse than the exact value of an integer decision (TLC PostTight)', **detail), props)
         if not v['exact']:
             _emit(rep, dict(sig='C04:integer-optimum-differs:' + tag, prop='C04', what='integer model: reported optimum below the exact grid optimum (TLC PostExact)', **detail), props)
-        if not v['status'] and not (p['supp'] == 7 and not any(w in (r.get('solver_status') or '').lower() for w in ('infeasible', 'unbounded'))):
+        if not v['status'] and not gave_up:
             _emit(rep, dict(sig='C04:feasible-model-not-solved:' + tag, prop='C04', what='a feasible grid decision exists but no solution was reported', **detail), props)
         # float oracle
-        tol = 5e-4 if p['supp'] == 7 else (5e-5 if job['solver'] == 'eco' else 5e-6)
+        tol = float_tol(p, r.get('solver', job['solver']))
         if r['status'] == 'ok' and r.get('wce') is not None:
             d = r['wce'] - r['obj']
             if d > 10 * tol * (1 + abs(r['obj'])):
@@ -146,35 +332,83 @@ def run(rep, tier, props):
                 rep.inconclusive += 1
             if r.get('wce_econ') is not None and r['wce_econ'] > 10 * tol * 10:
                 _emit(rep, dict(sig='C03:E-constraint-worst-case-positive:' + tag, prop='C03', what='moment LP: sup E(h) = %.6g > 0 at the returned solution' % r['wce_econ'], **detail), props)
+        # opt: optimum over the inner description of the declared sets (<= true inf-sup), opt_hi: over the outer one
+        # (>= true inf-sup); one and the same object for polyhedral programs
         opt = r.get('opt') or {}
-        if opt.get('status') == 'ok':
+        opt_hi = r.get('opt_hi') or opt
+        st_lo, st_hi = opt.get('status', 'none'), opt_hi.get('status', 'none')
+        if st_lo == 'ok' and st_hi == 'ok':
             stats['oracle_ok'] += 1
+            lo, hi = opt['val'], opt_hi['val']
+            if hi < lo - 1e-6 * (1 + abs(lo)):
+                raise tlc.MachineryError('DroSem oracle: outer optimum %.9g below inner optimum %.9g for %s' % (hi, lo, json.dumps(p)))
             if r['status'] == 'ok':
-                d = r['obj'] - opt['val']
-                if abs(d) > 10 * tol * (1 + abs(opt['val'])):
-                    if d > 0:
-                        _emit(rep, dict(sig='C04:optimum-above-true-infsup:' + tag, prop='C04', what='reported optimum %.6g, true optimum under the declared adaptation %.6g' % (r['obj'], opt['val']), **detail), props)
-                    else:
-                        _emit(rep, dict(sig='C03:optimum-below-true-infsup:' + tag, prop='C03', what='reported optimum %.6g is below the true inf-sup %.6g' % (r['obj'], opt['val']), **detail), props)
-                elif abs(d) > tol * (1 + abs(opt['val'])):
+                over, under = r['obj'] - hi, lo - r['obj']
+                if over > 10 * tol * (1 + abs(hi)):
+                    _emit(rep, dict(sig='C04:optimum-above-true-infsup:' + tag, prop='C04', what='reported optimum %.6g, true optimum under the declared adaptation %s%.6g' % (r['obj'], '<= ' if r.get('sandwich') else '', hi), **detail), props)
+                elif under > 10 * tol * (1 + abs(lo)):
+                    _emit(rep, dict(sig='C03:optimum-below-true-infsup:' + tag, prop='C03', what='reported optimum %.6g is below the true inf-sup %s%.6g' % (r['obj'], '>= ' if r.get('sandwich') else '', lo), **detail), props)
+                elif max(over, under) > tol * (1 + abs(lo)):
                     rep.inconclusive += 1
             else:
-                ss = (r.get('solver_status') or '').lower()
-                if p['supp'] == 7 and not ('infeasible' in ss or 'unbounded' in ss):
-                    # exponential-cone supports can only be solved by ECOS here; "numerical problems" / "close to optimal" /
-                    # iteration limits on these degenerate cones are the solver giving up, not a verdict about the model
+                if gave_up:
+                    # cone programs can only be solved by ECOS (exponential cones) / ECOS and time-limited Gurobi here; "numerical
+                    # problems" / "close to optimal" / iteration or time limits on these degenerate cones are the solver giving
+                    # up, not a verdict about the model
                     rep.inconclusive += 1
                     stats['ecos_gave_up'] = stats.get('ecos_gave_up', 0) + 1
                 else:
-                    _emit(rep, dict(sig='C04:feasible-model-not-solved:' + tag + ':' + job['solver'], prop='C04', what='the model has optimum %.6g but rsome reported no solution (%s)' % (opt['val'], r.get('solver_status')), **detail), props)
+                    _emit(rep, dict(sig='C04:feasible-model-not-solved:' + tag + ':' + job['solver'], prop='C04', what='the model has optimum %.6g but rsome reported no solution (%s)' % (lo, r.get('solver_status')), **detail), props)
+        elif st_lo != st_hi:
+            # the inner and the outer description disagree about feasibility: the declared set is in between - no verdict
+            rep.inconclusive += 1
+            stats['oracle_other']['sandwich-undecided'] = stats['oracle_other'].get('sandwich-undecided', 0) + 1
         else:
-            st = opt.get('status', 'none')
+            st = st_lo
             stats['oracle_other'][st] = stats['oracle_other'].get(st, 0) + 1
             if st == 'infeasible' and r['status'] == 'ok':
                 _emit(rep, dict(sig='C03:infeasible-model-solved:' + tag, prop='C03', what='oracle: no decision satisfies the model, rsome reports an optimum', **detail), props)
+            elif st != 'infeasible':
+                rep.inconclusive += 1
+    # vacuity: every new kind that was generated was also solved by the library (both forms where generated)
+    generated = {f: {} for f in NEW}
+    for job in jobs:
+        p = job['rec']['prog']
+        for f in NEW:
+            if p[f] in NEW[f]:
+                generated[f].setdefault(p[f], set()).add(p['form'])
+    # (a library that cannot solve a kind at all shows up as findings above - only a run without findings can be vacuous)
+    any_finding = bool(rep.violations or rep.known_hits or rep.extra.get('other_property_findings'))
+    for f in NEW:
+        for kind in NEW[f]:
+            if kind not in generated[f]:
+                raise tlc.MachineryError('DroSem: no program with %s kind %s was generated' % (f, kind))
+            for form in generated[f][kind]:
+                if not solved_kinds[f].get(kind, {}).get(form):
+                    if any_finding:
+                        rep.note('%s kind %s was never solved in form %s (see findings)' % (f, kind, form))
+                    else:
+                        raise tlc.MachineryError('DroSem: %s kind %s was never solved in form %s' % (f, kind, form))
+    stats['new_kinds_solved'] = {f: {str(k): v for k, v in sorted(solved_kinds[f].items(), key=lambda kv: str(kv[0]))} for f in NEW}
+    if not stats['two_atom_member_programs'] and not any_finding:
+        raise tlc.MachineryError('DroSem: no lifted program was validated against member distributions')
     rep.extra.setdefault('drosem', {}).update(stats)
     for job in jobs[:3]:
         rep.sample(dict(suite='DroSem', program=job['rec']['prog'], members=job['rec']['nmembers'], solver=job['solver']))
+    shown = set()
+    for job, r in zip(jobs, results):          # one written-out case per class of new set
+        p = job['rec']['prog']
+        cls = 'lifted' if p['supp'] in NEW['supp'] and p['prob'] not in NEW['prob'] else ('kl' if p['prob'] in (6, 8) else ('norm2' if p['prob'] in (7, 9) else None))
+        if cls and cls not in shown and r['status'] == 'ok' and job['tid'] in verdicts:
+            shown.add(cls)
+            rep.sample(dict(suite='DroSem', new_set=cls, program=p, solver=r.get('solver'), reported=r['obj'], worst_case_inner=r.get('wce'),
+                            optimum_inner=(r.get('opt') or {}).get('val'), optimum_outer=(r.get('opt_hi') or {}).get('val'),
+                            members_checked_by_tlc=verdicts[job['tid']]['nmem']))
+    rep.assumptions.append('lifted supports: worst-case distributions of piecewise-affine integrands live on vertices and extreme rays of the lifted '
+                           'polyhedra (enumerated by harness/liftpoly.py, checked in every run against an LP and a dense sample of the declared set)')
+    rep.assumptions.append('2-norm Wasserstein supports and KL / 2-norm probability sets are sandwiched: inner description (worst case, lower optimum) '
+                           'and outer description (upper optimum); TLC members for these kinds are verified inner points (necessary condition); '
+                           'ECOS 5e-4 relative (x10 margin), non-certificate ECOS / time-limited Gurobi failures are inconclusive')
     if stats['ok'] < len(jobs) // 3:
         raise tlc.MachineryError('DroSem: only %d of %d programs solved' % (stats['ok'], len(jobs)))
     return jobs, results
